@@ -445,6 +445,9 @@ class UTPM(Ring, RawAlgorithmsMixIn):
             return self.__class__(y_data)
 
     def __rpow__(self,r):
+        if numpy.issubdtype(numpy.asarray(r).dtype, numpy.integer):
+            # numpy.log of an int8/uint8/int16 base is computed in half / single precision
+            r = numpy.asarray(r, dtype=float)
         return UTPM.exp(numpy.log(r)*self)
 
 
